@@ -3,7 +3,7 @@ import os, sys, json
 sys.path.insert(0, os.path.join(os.path.dirname(os.path.abspath(__file__)), '..', 'lib'))
 import vcommon as V
 
-PROPS = ['props/C20.v', 'regress/C20.v']
+PROPS = ['props/C20.v', 'regress/C20.v', 'props/C20_src.v']
 GEN_OBLIGATIONS = ['cli_verify_propagates_error', 'cli_verify_wiring', 'cli_run_uses_LinkNameFormat',
                    'cli_record_uses_formats', 'cli_errors_all_returned', 'cli_key_loading', 'cli_sign_shape',
                    'cli_match_products_exit', 'cli_key_cmds']
